@@ -7,23 +7,6 @@ open RtcModel.Text
 
 /-! ### attributes, character level -/
 
-theorem splitOnce_none_of_not_mem (c : Char) (k : Str) (h : c ∉ k) : splitOnce c k = none := by
-  induction k with
-  | nil => rfl
-  | cons x xs ih =>
-    have hx : x ≠ c := fun e => h (by simp [e])
-    have hxs : c ∉ xs := fun e => h (by simp [e])
-    simp [splitOnce, hx, ih hxs]
-
-theorem splitOnce_append_of_not_mem (c : Char) (k v : Str) (h : c ∉ k) :
-    splitOnce c (k ++ c :: v) = some (k, v) := by
-  induction k with
-  | nil => simp [splitOnce]
-  | cons x xs ih =>
-    have hx : x ≠ c := fun e => h (by simp [e])
-    have hxs : c ∉ xs := fun e => h (by simp [e])
-    simp [splitOnce, hx, ih hxs]
-
 theorem Attr.fromLine_text (a : Attr) (hk : ':' ∉ a.key) : Attr.fromLine a.text = a := by
   obtain ⟨k, v⟩ := a
   cases v with
